@@ -7,6 +7,7 @@ RULE = {
     "C01": "scripts in which the handler was invoked at least once and at least one event was rejected, errored, urgent or empty; distinct by the whole script",
     "C02": "scripts in which some batch held two or more events or an event arrived within 10 ms of a window end or the throttle changed; distinct by the whole script",
     "C15": "scripts in which the filter errored at least once; distinct by the whole script",
+    "C08": "scripts in which at least one job had a process running when the quit was asked; distinct by the whole script",
 }
 
 
@@ -20,6 +21,9 @@ def nontrivial(prop, s):
         return close or bool(s.get("throttles"))
     if prop == "C15":
         return any(e["verdict"] == "error" for e in evs)
+    if prop == "C08":
+        ops = [o["op"] for e in evs for o in e.get("jobops", [])]
+        return "start" in ops
     return True
 
 
@@ -31,6 +35,8 @@ def scripts_for(prop, tier, rng):
         return workgen.window_scripts(rng, 1000 if q else 10000)
     if prop == "C15":
         return workgen.error_scripts(rng, 1200 if q else 12000)
+    if prop == "C08":
+        return workgen.quit_scripts(rng, 600 if q else 6000)
     raise ValueError(prop)
 
 
@@ -50,7 +56,13 @@ def run(prop, tier, replay=None):
     t0 = time.time()
     rng = random.Random(vlib.seed() * 104729 + int(prop[1:]))
     vlib.build_harness()
-    mc = vlib.tlc_check("MC_Worker.tla", "MC_Worker_%s_%s.cfg" % (prop, tier), "mc_" + prop, workers=12, timeout=3000)
+    if prop == "C08":
+        mc_module, mc_cfg = "MC_JobQuit.tla", "MC_JobQuit_%s.cfg" % tier
+        tr_module, cfg = "QuitMon.tla", "QuitMon.cfg"
+    else:
+        mc_module, mc_cfg = "MC_Worker.tla", "MC_Worker_%s_%s.cfg" % (prop, tier)
+        tr_module, cfg = "WorkerTrace.tla", "WorkerTrace_%s.cfg" % prop
+    mc = vlib.tlc_check(mc_module, mc_cfg, "mc_" + prop, workers=12, timeout=3000)
     violations = []
     if mc["violated"]:
         path = vlib.save_replay(prop, "model_" + mc["violated"], dict(kind="model", invariant=mc["violated"], tlc_tail=mc["out"][-6000:]))
@@ -62,19 +74,19 @@ def run(prop, tier, replay=None):
         scripts = scripts_for(prop, tier, rng)
     by_id = {s["id"]: s for s in scripts}
     tp = run_driver(scripts, "drv_" + prop)
-    cfg = "WorkerTrace_%s.cfg" % prop
-    acc, rej, stats, total = vlib.validate_traces("WorkerTrace.tla", cfg, tp, "val_" + prop, shards=12)
+    acc, rej, stats, total = vlib.validate_traces(tr_module, cfg, tp, "val_" + prop, shards=12)
     for r in rej:
         sid = r["script"] or ""
         path = vlib.save_replay(prop, "%s_%s" % (sid, vlib.digest(r["event"])), dict(
             kind="trace", property=prop, script=by_id.get(sid), rejected_at_line=r["line"], event=r["event"],
-            why="the specification (ActionWorker, %s) cannot explain this event" % cfg,
+            why=r.get("why") or "the specification (ActionWorker, %s) cannot explain this event" % cfg,
             trace=[json.loads(x) for x in r["lines"]]))
-        violations.append(("%s: trace is not a behaviour of ActionWorker at line %d (%s %s)"
-                           % (sid, r["line"], r["event"]["e"], r["event"].get("id")), path))
+        violations.append(("%s: %s at line %d (%s %s)"
+                           % (sid, r.get("why") or "trace is not a behaviour of ActionWorker", r["line"],
+                              r["event"]["e"], r["event"].get("id")), path))
     with open(tp) as f:
         scen = vlib.split_scenarios(f.readlines())
-    distinct = {vlib.digest([s["events"], s["cap"], s["ecap"], s["throttle"], s.get("throttles")])
+    distinct = {vlib.digest([s["events"], s["cap"], s["ecap"], s["throttle"], s.get("throttles"), s.get("jobs")])
                 for s in scripts if nontrivial(prop, s)}
     samples = [dict(script=by_id.get(json.loads(sc[0])["a"]), trace=sample_of(sc))
                for sc in scen[len(scen) // 3: len(scen) // 3 + 2]]
@@ -83,7 +95,7 @@ def run(prop, tier, replay=None):
         model_states=mc["distinct"], model_transitions=mc["generated"], trace_states=stats["distinct"],
         traces_validated_against_impl=acc, evaluations=total, distinct_nontrivial=len(distinct),
         rule=RULE[prop], exhaustive=False, samples=samples,
-        checker_cmd="tlc MC_Worker.tla -config MC_Worker_%s_%s.cfg ; worker_driver ; tlc WorkerTrace.tla -config %s (per shard)" % (prop, tier, cfg),
+        checker_cmd="tlc %s -config %s ; worker_driver ; tlc %s -config %s (per shard)" % (mc_module, mc_cfg, tr_module, cfg),
         script_families=sorted({s.get("origin", "?") for s in scripts}))
     assumptions = [
         "single-threaded tokio runtime with paused clock; with --cfg watchexec_verif the worker measures its window on tokio's clock (the same arithmetic as std's Instant)",
